@@ -580,7 +580,7 @@ func (p *parser) plain(out []byte, clob bool) []byte {
 	switch {
 	case c < 0x20 && c != '\t' && c != 0x0B && c != 0x0C:
 		p.fail("raw control character 0x%02x in quoted text", c)
-	case c < 0x7F || (c == 0x7F && !clob):
+	case c <= 0x7F: // the grammar's CLOB_SHORT_TEXT_ALLOWED runs to U+007F, so DEL is legal raw in clobs too
 		p.pos++
 		return append(out, byte(c))
 	case clob:
